@@ -70,6 +70,7 @@ type batchCfg struct {
 	freq0     bool
 	vecDim    int
 	vecOne    bool // a single vector field, 2-3 vectors per document
+	vecAll    bool // every document carries the vector field(s)
 }
 
 func (g *Gen) defaultCfg() batchCfg {
@@ -241,7 +242,7 @@ func (g *Gen) randBatch(name string, cfg batchCfg) *BatchSpec {
 				flds = append(flds, sf)
 			}
 		}
-		if cfg.vec && g.chance(0.7) {
+		if cfg.vec && (cfg.vecAll || g.chance(0.7)) {
 			dim := cfg.vecDim
 			if dim == 0 {
 				dim = 2
@@ -331,6 +332,22 @@ func (g *Gen) dumpIndex(seg string) {
 		g.emit("q dict %s %s aut=all lo=* hi=* probe=%s", seg, f, hxList(probe))
 		for _, t := range probe {
 			g.emit("q post %s %s %s ex=nil fl=111 ops=%s", seg, f, hx(t), g.nexts(nd+1))
+		}
+		// the same lookups with one recycled list and iterator: hits followed by misses (an absent
+		// term, a term of another field, the empty term) must not show what the list held before
+		probe = append(probe, []byte(""))
+		for _, of := range fields {
+			if of != f {
+				for _, t := range sortedKeys(u.Fields[of]) {
+					if _, here := u.Fields[f][t]; !here {
+						probe = append(probe, []byte(t))
+						break
+					}
+				}
+			}
+		}
+		for i, t := range probe {
+			g.emit("q post %s %s %s ex=nil fl=%s pl=pd it=id ops=%s", seg, f, hx(t), []string{"000", "111", "100"}[i%3], g.nexts(nd+1))
 		}
 	}
 }
